@@ -397,6 +397,45 @@ def history_unit(M, K, outcomes=None):
     return h
 
 
+def stop_connector_unit(M):
+    """close() while the connector is in the middle of an attempt: close() cancels it and waits for it; a trigger that arrives
+    while it waits (zeroconf update -> reconnect_soon, a poll -> ensure_connection) must not start a second connector"""
+    def h(ex):
+        trigger = ex.choice("trigger_while_close_waits", ["none", "reconnect_soon", "_start_reconnecting"])
+        net = Net()
+        with Env(M, net) as env:
+            conn = new_conn(M, env)
+
+            class SlowTask(FakeTask):
+                """a connector that needs one more loop iteration to finish after being cancelled"""
+
+                def __await__(self):
+                    yield self
+                    self.st = "finished-cancelled"
+                    raise asyncio.CancelledError()
+
+            task = conn._connector = SlowTask("running")
+            coro = conn.close()
+            try:
+                coro.send(None)
+                suspended = True
+            except StopIteration:
+                suspended = False
+            ex.require(suspended and task.cancel_calls >= 1, "close() cancels the running connector and waits for it")
+            if suspended:
+                if trigger != "none":
+                    getattr(conn, trigger)()
+                ex.require(not env.tasks, "no second connector is started while close() is stopping the first one")
+                try:
+                    coro.send(None)
+                    ex.require(False, "(harness) close() finishes")
+                except StopIteration:
+                    pass
+            ex.require(not net.open, "close() leaves no connection open")
+        return ex.observe([trigger, len(env.tasks)])
+    return h
+
+
 def build(tier, mutate=None):
     C = copies(mutate)
     R = real_ipc
@@ -405,6 +444,14 @@ def build(tier, mutate=None):
                     bounds={"attempts": K, "set-up outcomes": outcomes, "hosts": HOSTS, "late connection_lost between M1 and M2 of a later attempt": "none or any attempt", "peer closes / late connection_lost": "none or any connection made so far", "close()": "with connector none / running / finished (ok, auth error, connection error)"},
                     regions=["failed-setup", "stale-close", "close", "late-loss-mid-verify"], diff_sample=300)
     units = [unit(2, OUTCOMES)]
+    if tier != "canary":
+        units.append(Unit("close/trigger-while-the-connector-is-being-stopped", stop_connector_unit(C), stop_connector_unit(R),
+                          bounds={"trigger": "none / reconnect_soon / _start_reconnecting while close() awaits the cancelled connector"}))
+        # shutdown() marks the pairing before it awaits close(), so nothing that arrives meanwhile reopens it (unit of C10)
+        from . import c10
+        CP = load(c10.IPP, deps={IPC: C}, src_transform=(mutate or {}).get(c10.IPP), symbolic=False)
+        units.append(Unit("shutdown/update-while-closing (unit of C10)", c10.shutdown_unit(C, CP), c10.shutdown_unit(R, c10.real_ipp),
+                          bounds={"connector": "none / running / finished", "interleaved": "one zeroconf update while close() is suspended"}))
     if tier == "thorough":
         # three attempts with one outcome per handler branch of _connect_once (13^3 x 240 histories is out of the time budget)
         units.append(unit(3, REPRESENTATIVES))
